@@ -975,6 +975,7 @@ def c06(tier, rng, fam='C06'):
     # messages that arrive after the handler has returned - including messages that encode to zero bytes -
     # are answered with at most a reset: nothing follows a stream's trailer, no second handler runs
     out += late_messages(fam)
+    out += late_body_before_trailer(fam)
     out += unencodable_send(fam)
     out += unencodable_elsewhere(fam)
     out += random_programs(fam, 150 if tier == 'quick' else 3000, rng)
@@ -1266,7 +1267,7 @@ def route_echo(tier, rng, fam='C16'):
 # ------------------------------------------------------------- gate sweep -----
 
 SWEEP_GATES = ['mux.call.window', 'mux.await.window', 'cs.recv.window', 'cs.send.window', 'cs.read.window',
-               'srv.writer.window', 'srv.forward.window', 'srv.stream.exit', 'cs.teardown.window']
+               'srv.writer.window', 'srv.forward.window', 'srv.stream.returned', 'srv.stream.exit', 'cs.teardown.window']
 
 
 def _sweep_bases():
@@ -1814,4 +1815,31 @@ def no_metadata_at_all(fam):
             b.step('sopen', c=5, kind='cs', hp=[dict(o='drain'), dict(o='send', pay='sum'), ret()])
             b.step('send', c=5, pay='x').step('send', c=5, pay='y').step('close', c=5).step('recv', c=5, n=2)
             out.append(b.q().done())
+    return out
+
+
+def late_body_before_trailer(fam):
+    """the handler has returned - successfully or not - but its trailer has not been handed to the writer yet
+    (srv.stream.returned) when one more message of the caller arrives: the trailer still comes first, and is the
+    last thing the server says on that id unless a reset answers a message that came later still"""
+    out = []
+    for kind in ('bidi', 'cs'):
+        for code in (0, 9):
+            for late in (1, 2):
+                b = B(fam, '%s: %d late message(s) between the handler return (code %d) and its trailer' % (kind, late, code), ser=bool(late % 2))
+                b.step('sopen', c=1, kind=kind, hp=[dict(o='recv')])
+                b.step('send', c=1, pay='m1')
+                b.q()
+                b.step('arm', gate='srv.stream.returned', id=0, n=1)
+                b.step('hop', c=1, h=ret(code=code, msg='precondition' if code else ''))
+                b.step('send', c=1, pay='late1')
+                b.q()
+                b.step('rel', gate='srv.stream.returned')
+                b.q()
+                if late == 2:
+                    b.step('send', c=1, pay='late2')
+                b.step('recv', c=1, n=2)
+                b.step('trl', c=1)
+                b.step('ucall', c=9, pay='probe', hp=[ret(pay='fine')])
+                out.append(b.q().done())
     return out
